@@ -85,6 +85,17 @@ Theorem messages_wf :
   (forall c, wf_fmt (fmt_Ext c) /\ delim (fmt_Ext c)).
 Proof. exact messages_wf_top. Qed.
 
+(* RecordHeader2 through the API view create(length, padding, securityEscape): what fits round-trips
+   and is reported back with the same fields; the encoder refuses exactly a length that needs more
+   bits than the header FORM has (2-byte form 15 bits, 3-byte form 14 bits) or a non-byte padding *)
+Theorem rh2_roundtrip : forall len pad esc,
+  (forall v, rh2_val len pad esc = Some v ->
+     (exists bs, encode fmt_RecordHeader2 v = Ok bs /\ decode fmt_RecordHeader2 bs = Ok (v, [])) /\
+     rh2_fields v = Some (len, pad, esc)) /\
+  (rh2_val len pad esc = None <->
+     ~ (0 <= len /\ if rh2_short pad esc then len < 32768 else len < 16384 /\ 0 <= pad < 256)).
+Proof. exact rh2_roundtrip_top. Qed.
+
 (* ---- primitives ---------------------------------------------------------------- *)
 Theorem get_add : forall a x n w c,
   w_add a x n = Ok w ->
@@ -170,4 +181,10 @@ Example ex_duplicate_extension :
     (VPair (VInt 8) (vlist [VTag 21 (VBytes [7]); VTag 21 (VBytes [9])])) = Err ValueError /\
   decode fmt_EncryptedExtensions [8;0;0;12; 0;10; 0;21;0;1;7; 0;22;0;1;9]
     = Ok (VPair (VInt 8) (vlist [VTag 21 (VBytes [7]); VTag 22 (VBytes [9])]), []).
+Proof. repeat split; vm_compute; reflexivity. Qed.
+
+(* a security-escape record without padding uses the 3-byte header: length 0x4123 does not fit *)
+Example ex_rh2_escape_length :
+  rh2_val 16675 0 true = None /\ rh2_val 16383 0 true = Some (VTag 127 (VPair (VInt 255) (VInt 0))) /\
+  rh2_val 16675 0 false = Some (VTag 193 (VInt 35)) /\ rh2_val 32768 0 false = None.
 Proof. repeat split; vm_compute; reflexivity. Qed.
